@@ -80,7 +80,12 @@ func (pl *Plan) init() {
 }
 
 // Release lets exchanges held by a "hold" plan continue.
-func (pl *Plan) Release() { pl.relOnce.Do(func() { close(pl.release) }) }
+func (pl *Plan) Release() {
+	if pl.release == nil {
+		return // never installed
+	}
+	pl.relOnce.Do(func() { close(pl.release) })
+}
 
 // AwaitFired waits until the fault was delivered to all Count exchanges (or d elapsed); returns the number delivered.
 func (pl *Plan) AwaitFired(d time.Duration) int {
@@ -483,6 +488,7 @@ func (pc *pconn) exchange(cbr, ubr *bufio.Reader) bool {
 	if f := strings.Fields(string(rhead)); len(f) >= 2 {
 		status, _ = strconv.Atoi(f[1])
 	}
+	rest := rhead // what of the head is still to be written (the framing below is read from the whole head)
 	if at("resp-head-mid") {
 		o := offsetOf(pl, len(rhead))
 		if !pc.w(rhead[:o]) {
@@ -491,10 +497,10 @@ func (pc *pconn) exchange(cbr, ubr *bufio.Reader) bool {
 		if pc.hit(pl) {
 			return false
 		}
-		rhead = rhead[o:]
+		rest = rhead[o:]
 	}
 	pc.px.noteStatus(status) // counted before it is written: the reader of the count may be the one who got it
-	if !pc.w(rhead) {
+	if !pc.w(rest) {
 		return false
 	}
 	if at("resp-headers") {
